@@ -122,6 +122,10 @@ def gen_defer(tier, rnd):
             C.append(['J %s 1' % a] + rel + ['J %s 1' % a2] + rel)                         # asked again after the answer: a new request
             C.append(['J %s 1' % a, 'J %s 1' % b, 'J %s 1' % a, 'J %s 1' % pa, 'J %s 1' % b] + rel)
             C.append(['J %s 1' % a, 'I %s' % pa, 'J %s 1' % a] + rel + ['I %s' % pa])
+            # a request without a token (zero-length token) is deferred and found again like any other
+            e = rq(ty, b'', res)
+            C.append(['J %s 3' % e] + rel)
+            C.append(['J %s 3' % e, 'J %s 3' % e, 'J %s 2' % e] + rel + ['J %s 3' % pa])
             if res == b'v':
                 C.append(['J %s 1' % a, 'W 1000', 'J %s 1' % a, 'W 4000'])
                 C.append(['J %s 1' % a, 'J %s 2' % b, 'W 500', 'J %s 2' % b, 'J %s 1' % a, 'W 4000', 'J %s 1' % a2, 'W 4000'])
